@@ -15,7 +15,7 @@ theorem inv_step {env : Env} (he : EnvOk env) {s : St} (hi : Inv env s) (op : Op
   cases op with
   | apply b key k origin =>
     have g := getMocker_spec hi b key
-    exact (applyImp_spec he (setOrigin_spec g.1 _ origin).1 _ _).1
+    exact (applyCb_spec he (setOrigin_spec g.1 _ origin).1 _ _).1
   | ret b key origin =>
     have g := getMocker_spec hi b key
     have so := setOrigin_spec g.1 (getMocker s b key).2 origin
@@ -150,8 +150,8 @@ theorem other_targets_untouched {env : Env} (he : EnvOk env) {s : St} (hi : Inv 
     obtain ⟨g1, g2, g3, _, _⟩ := getMocker_spec hi b key
     obtain ⟨o1, o2, _, _, _, o6⟩ := setOrigin_spec g1 (getMocker s b key).2 origin
     have a := (applyImp_spec he o1 (getMocker s b key).2 (.cb k)).2.1 f (by rw [(o6 _).1, g3]; exact fun h => hne h.symm)
-    show (applyImp env _ _ _).1.text f = _
-    rw [a, o2, g2]
+    show (applyCb env _ _ _).1.text f = _
+    rw [(applyCb_spec he o1 _ k).2.1, a, o2, g2]
   | ret b key origin =>
     intro hne
     obtain ⟨g1, g2, g3, _, _⟩ := getMocker_spec hi b key
@@ -204,14 +204,18 @@ theorem remock_after_reset {env : Env} (he : EnvOk env) (ops : List Op) (b key k
   have hok : (applyImp env (getMocker s1 b key).1 (getMocker s1 b key).2 (.cb k)).2 = none := by
     have hp := (unpatchValue_spec he g1 (key % 1000)).2.1
     unfold applyImp replaceFunc
-    simp only [hfresh.1, hfresh.2, C02L.jump_length, register, upd]
+    simp only [hfresh.1, hfresh.2, C02L.jump_length, register]
     have : ¬ (13 ≥ env.funcSize (key % 1000)) := by omega
     simp only [this, if_false, hp, hnop]
     simp [mkGuard]
   have a := applyImp_spec he g1 (getMocker s1 b key).2 (.cb k)
-  refine ⟨hok, ?_⟩
+  have c := applyCb_spec he g1 (getMocker s1 b key).2 k
+  have hstep : step env s1 (.apply b key k none) = applyCb env (getMocker s1 b key).1 (getMocker s1 b key).2 k := rfl
+  rw [hstep]
+  refine ⟨by rw [c.2.2]; exact hok, ?_⟩
   have := a.2.2.1 hok
   rw [hfresh.2] at this
+  rw [c.2.1]
   exact this
 
 /-- the hypotheses of the theorems above are satisfiable by a non-trivial state: two builders mock the same 16-byte
